@@ -33,6 +33,15 @@ NOTES.update({
  "w4-C18-m1": "missed at first: UTF-16BE was one of many character sets, two tasks rarely used it together; `qreci` operation and runs in which every task uses the same selector (character set, field, image) added",
  "w4-C18-m2": "missed at first: the three special 5-digit add-on values were practically never drawn; the price-table values are now over-sampled (oracle (c) then sees the shared table change after a single decode)",
 })
+NOTES.update({
+ "w4-C11-m1": "missed at first: texts were never dominated by two-character punctuation codes and the reference encoder rarely latched to Punct; pair-only texts and an 'efficient' encoding style (no optional detours, eager Punct latch) added",
+ "w4-C11-m2": "missed at first: poses always had a quiet zone, and location failures of compact symbols at 2 px/module were one known class; poses without quiet zone added and keyed separately (0 failures in 24 000 such poses on the unchanged tree), so the change is reported",
+ "w4-C11-m3": "missed at first: damaged codewords were random XORs; 'blot' plans (exactly t data codewords reading all zeros / all ones) added",
+ "w5-C16-m2": "NOT caught: it needs a row whose bits beyond its own size were set with SetBulk; the check passes SetBulk only bits below the array size (stated assumption: positions at or beyond the size are not part of the container), under which the change is equivalent",
+ "w5-C18-m1": "first run: exit 2 (driver sources were looked up under an overridden VERIF_DIR; fixed); then missed: no Macro 05/06 Data Matrix messages in the workload; added; caught by oracle (b), no race report",
+ "w5-C18-m2": "missed at first: no low-contrast images in the workload; `faint` operation added; caught by oracle (b) deterministically (the solo reference runs in its own process), no race report",
+ "w5-C18-m3": "NOT decided: the change starts goroutines inside the library; schedsim cannot schedule library-internal goroutines and says so: exit 2 'unsupported construct' (DESIGN 4.4), never a VIOLATION and never a pass",
+})
 rows=[]
 for d in sorted(glob.glob('/verif/seeded/*/')):
     name=os.path.basename(d.rstrip('/'))
